@@ -304,7 +304,10 @@ func (r alignResult) stepsUnchanged() error {
 
 // runAlign calls Global or Local, checking that inputs are untouched and nothing panics.
 func runAlign(c AlignCase, m align.SubstitutionMatrix) (alignResult, error) {
-	a, b := bytes.Clone(c.A), bytes.Clone(c.B)
+	// a and b are windows of one buffer (with a byte between them): anything written past the
+	// end of a would corrupt b.
+	ar := newArena(c.A, []byte("|"), c.B)
+	a, b := ar.field(0), ar.field(2)
 	nkeys := len(m)
 	var res alignResult
 	var steps []align.Step
@@ -324,6 +327,9 @@ func runAlign(c AlignCase, m align.SubstitutionMatrix) (alignResult, error) {
 	}
 	if !bytes.Equal(a, c.A) || !bytes.Equal(b, c.B) {
 		return res, fmt.Errorf("%s modified its input sequences", name)
+	}
+	if err := ar.verify(); err != nil {
+		return res, fmt.Errorf("%s(%q,%q): %v", name, []byte(c.A), []byte(c.B), err)
 	}
 	if len(m) != nkeys {
 		return res, fmt.Errorf("%s modified the substitution matrix", name)
